@@ -101,3 +101,8 @@ const summary = {
 
 console.log(JSON.stringify(summary, null, 2));
 module.exports = { Todo, TodoList, foo, bar };
+
+// dangling commas before a closer
+foo(alpha, beta, gamma,);
+const trailing = [one, two, three,];
+bar({ k: 1, l: 2, }, [p, q,],);
